@@ -1,7 +1,7 @@
 """
-Correspondence probes for the bookkeeping models (Lean: PGModel/Cache.lean, Inference.lean, Validate.lean, Api.lean, Memo.lean):
+Correspondence probes for the bookkeeping models (Lean: PGModel/Cache.lean, Share.lean, Serialize.lean, Inference.lean, Validate.lean, Api.lean, Memo.lean):
 random operation histories / requests are replayed on the REAL objects and on the model through the driver commands
-`cache`, `infer`, `validate`, `api`, `memo`; answers are diffed. Used by props/c17.py, c19.py, c20.py (ctx.corr_break on mismatch).
+`cache`, `share`, `serial`, `infer`, `validate`, `api`, `memo`; answers are diffed. Used by props/c17.py, c19.py, c20.py (ctx.corr_break on mismatch).
 """
 import os, random, math
 from fractions import Fraction
@@ -868,6 +868,369 @@ def memo_history(ctx, rng, n_queries=8):
     return line
 
 
+# ------------------------------------------------------------------------------------------ state-space sharing (C17/C19)
+def _share_key(cls, cfg):
+    nl, nu, rec = cfg['loci']
+    m, ps = cfg['model']
+    return (f"{cls};{','.join(f'{p}={n}' for p, n in cfg['lin'])};{nl};{nu};{C.rs(rec)};{m};"
+            f"{','.join(C.rs(x) for x in ps) if ps else '-'}")
+
+
+def _share_pool(rng):
+    """a base configuration and variants that differ from it in exactly ONE field of the state-space key"""
+    two_demes = rng.random() < 0.5
+    fam = rng.choice(['one-locus', 'one-locus', 'two-loci'])
+    if fam == 'one-locus':
+        lin = [('a', 2), ('b', 1)] if two_demes else [('pop_0', 3)]
+        model = rng.choice([('standard', []), ('beta', [1.5, 1]), ('dirac', [0.5, 1.0, 1])])
+        base = dict(lin=lin, loci=(1, 0, 0.0), model=model)
+        var = [dict(base, lin=[(lin[0][0], lin[0][1] + 1)] + lin[1:])]                       # n
+        if two_demes:
+            var.append(dict(base, lin=[('a', 1), ('b', 2)]))                                   # n per deme
+            var.append(dict(base, lin=[('b', 1), ('a', 2)]))                                   # order of the demes
+        if model[0] == 'standard':
+            var.append(dict(base, loci=(2, 0, 0.0)))                                           # loci
+            var.append(dict(base, model=('beta', [1.5, 1])))                                   # model class
+        elif model[0] == 'beta':
+            var.append(dict(base, model=('beta', [1.25, 1])))                                  # model parameter
+            var.append(dict(base, model=('beta', [1.5, 0])))
+            var.append(dict(base, model=('standard', [])))
+        else:
+            var.append(dict(base, model=('dirac', [0.25, 1.0, 1])))
+            var.append(dict(base, model=('dirac', [0.5, 2.0, 1])))
+            var.append(dict(base, model=('dirac', [0.5, 1.0, 0])))
+    else:
+        lin = [('a', 1), ('b', 1)] if two_demes else [('pop_0', rng.choice([2, 3]))]
+        base = dict(lin=lin, loci=(2, 0, 1.0), model=('standard', []))
+        var = [dict(base, loci=(2, 0, 2.0)),                                                   # recombination rate
+               dict(base, loci=(2, 1, 1.0)),                                                   # n_unlinked
+               dict(base, loci=(1, 0, 1.0)),                                                   # loci
+               dict(base, lin=[(lin[0][0], lin[0][1] + 1)] + lin[1:])]                         # n
+        if two_demes:
+            var.append(dict(base, lin=[('b', 1), ('a', 1)]))                                   # order of the demes
+    rng.shuffle(var)
+    pool = [base] + var[:rng.randint(2, 4)]
+    rng.shuffle(pool)
+    return fam, two_demes, pool
+
+
+def share_history(ctx, rng, n_ops=14, variant='c'):
+    """`Inference.get_coal`: random interleavings of `get_coal` and of operations on the state spaces of the coalescents
+    handed out; which configuration's rate matrix every read of `S` returns is compared with the model (driver `share`)."""
+    pg = C.import_phasegen()
+    from phasegen.state_space import LineageCountingStateSpace, BlockCountingStateSpace
+    from phasegen.lineage import LineageConfig
+    from phasegen.locus import LocusConfig
+    from phasegen.demography import Epoch
+    fam, two, pool = _share_pool(rng)
+    use = rng.random() < 0.7
+    n_ep = rng.choice([2, 3])
+    two_epochs = rng.random() < 0.5
+    if two:
+        tab = [({'a': 1.0, 'b': 2.0}, {('a', 'b'): 0.5, ('b', 'a'): 0.25}), ({'a': 3.0, 'b': 2.0}, {('a', 'b'): 0.5, ('b', 'a'): 0.25}),
+               ({'a': 1.0, 'b': 2.0}, {('a', 'b'): 1.5, ('b', 'a'): 0.25})][:n_ep]
+    else:
+        tab = [({'pop_0': 1.0}, {}), ({'pop_0': 2.0}, {}), ({'pop_0': 0.5}, {})][:n_ep]
+    epochs = [Epoch(start_time=0.0, end_time=1.5, pop_sizes=dict(sz), migration_rates=dict(mg)) for sz, mg in tab]
+
+    def mk_model(m):
+        name, ps = m
+        if name == 'standard':
+            return pg.StandardCoalescent()
+        if name == 'beta':
+            return pg.BetaCoalescent(alpha=ps[0], scale_time=bool(ps[1]))
+        return pg.DiracCoalescent(psi=ps[0], c=ps[1], scale_time=bool(ps[2]))
+
+    def mk_dem(e):
+        sz, mg = tab[e]
+        sz2, mg2 = tab[(e + 1) % n_ep]
+        if two_epochs:
+            return pg.Demography(pop_sizes={p: {0: v, 1.5: sz2[p]} for p, v in sz.items()},
+                                 migration_rates={k: {0: v, 1.5: mg2[k]} for k, v in mg.items()} if mg else None)
+        return pg.Demography(pop_sizes=dict(sz), migration_rates=dict(mg) if mg else None)
+
+    def coal(idx, ep):
+        cfg = pool[int(round(idx))]
+        nl, nu, rec = cfg['loci']
+        return pg.Coalescent(n=dict(cfg['lin']), model=mk_model(cfg['model']), demography=mk_dem(int(round(ep))),
+                             loci=LocusConfig(n=nl, n_unlinked=nu, recombination_rate=rec), parallelize=False, pbar=False)
+
+    # rate matrices on FRESH state spaces, by (class, configuration, epoch)
+    fresh = {}
+    for ci, cfg in enumerate(pool):
+        nl, nu, rec = cfg['loci']
+        for cls, K in (('L', LineageCountingStateSpace), ('B', BlockCountingStateSpace)):
+            if cls == 'B' and nl != 1:
+                continue
+            for ei, ep in enumerate(epochs):
+                f = K(lineage_config=LineageConfig(dict(cfg['lin'])), locus_config=LocusConfig(n=nl, n_unlinked=nu, recombination_rate=rec),
+                      model=mk_model(cfg['model']), epoch=ep)
+                fresh[(cls, ci, ei)] = np.array(f.S)
+    keys = {cls: [_share_key(cls, cfg) for cfg in pool] for cls in 'LB'}
+    x0 = (rng.randrange(len(pool)), rng.randrange(n_ep))
+    inf = pg.Inference(bounds=dict(idx=(0.0, float(len(pool))), ep=(0.0, float(n_ep))), x0=dict(idx=float(x0[0]), ep=float(x0[1])),
+                       coal=coal, loss=lambda c, o: 0.0, n_runs=1, parallelize=False, pbar=False, seed=1, cache=use)
+    handles, ops, reads, raised = [], [], {'L': [], 'B': []}, False
+    disciplined = rng.random() < 0.6
+    for _ in range(n_ops):
+        if not handles or rng.random() < 0.3:
+            ci, ei = rng.randrange(len(pool)), rng.randrange(n_ep)
+            ops.append(('g', ci, ei))
+            try:
+                handles.append((ci, inf.get_coal(idx=float(ci), ep=float(ei))))
+            except NotImplementedError:
+                raised = True
+                break
+            continue
+        i = rng.randrange(len(handles))
+        ci, c = handles[i]
+        cls = rng.choice('LB') if pool[ci]['loci'][0] == 1 else 'L'
+        ss = c.lineage_counting_state_space if cls == 'L' else c.block_counting_state_space
+        seq = [f'u{rng.randrange(n_ep)}', 's'] if disciplined and rng.random() < 0.7 else [rng.choice(['u', 's', 's', 'd', 'c', 't'])]
+        for o in seq:
+            if o == 'u':
+                o = f'u{rng.randrange(n_ep)}'
+            ops.append(('q', cls, i, o))
+            if o[0] == 'u':
+                ss.update_epoch(epochs[int(o[1:])])
+            elif o == 's':
+                S = np.array(ss.S)
+                hits = [(k[1], k[2]) for k, F in fresh.items() if k[0] == cls and F.shape == S.shape and np.allclose(F, S, rtol=1e-12, atol=0)]
+                reads[cls].append(dict(handle=i, own=ci, hits=hits))
+            elif o == 'd':
+                ss.drop_S()
+            elif o == 'c':
+                ss.drop_cache()
+            else:
+                _ = ss.states
+    ctx.count('share-histories'); ctx.count(f'share:{fam}:{"two-demes" if two else "one-deme"}:cache{int(use)}')
+    if raised:
+        ctx.count('share-get_coal-raises')
+    bad = []
+    for cls in 'LB':
+        toks = []
+        for j, o in enumerate(ops):
+            if o[0] == 'g':
+                if raised and j == len(ops) - 1 and cls == 'L':
+                    continue        # the raising call hands nothing out; only the block-counting slice of the model knows why
+                toks.append(f'g:{keys[cls][o[1]]}@{o[2]}')
+            elif o[1] == cls:
+                toks.append(f'q:{o[2]}:{o[3]}')
+        line = f"share {variant} {int(use)} {keys[cls][x0[0]]}@{x0[1]} {' '.join(toks)}"
+        ans = C.driver().ask(line).split()
+        if ans == ['-']:
+            ans = []
+        model_raises = bool(ans) and ans[-1] == 'raise'
+        if model_raises:
+            ans = ans[:-1]
+        if cls == 'B' and model_raises != raised:
+            bad.append(dict(cls=cls, why='get_coal raises', model=model_raises, real=raised, request=line))
+            continue
+        if len(ans) != len(reads[cls]):
+            bad.append(dict(cls=cls, why='number of reads', model=len(ans), real=len(reads[cls]), request=line))
+            continue
+        for a, r in zip(ans, reads[cls]):
+            k, e = a.rsplit('@', 1)
+            pred = (keys[cls].index(k), int(e))
+            ctx.count('share-reads')
+            if len({h[0] for h in r['hits']}) > 1:
+                ctx.count('share-reads-matrix-common-to-several-configurations')
+            if pred[0] != r['own']:
+                ctx.count('share-model-predicts-foreign-matrix')
+            if pred not in r['hits']:
+                bad.append(dict(cls=cls, handle=r['handle'], own_config=pool[r['own']], model=dict(config=pool[pred[0]], epoch=pred[1]),
+                                real=[dict(config=pool[h[0]], epoch=h[1]) for h in r['hits']], request=line))
+    if bad:
+        ctx.corr_break('share-history', variant=variant, cache=use, x0=dict(config=pool[x0[0]], epoch=x0[1]), mismatches=bad[:4])
+    return ops
+
+
+# ------------------------------------------------------------------------------------------ field-level serialisation (C18)
+def _ser_hash(x):
+    import hashlib
+    return hashlib.sha1(repr(x).encode()).hexdigest()[:10]
+
+
+def _ser_num(v):
+    if v is None:
+        return 'N'
+    if isinstance(v, (bool, np.bool_)):
+        return 'T' if v else 'F'
+    return C.rs(C.frac(v))
+
+
+def _ser_point(d):
+    return 'N' if d is None else 'P:' + (','.join(f'{k}~{C.rs(C.frac(v))}' for k, v in d.items()) or '-')
+
+
+def _ser_space(ss):
+    cls = 'L' if type(ss).__name__.startswith('Lineage') else 'B'
+    return f"S:{cls}:{len(ss._cache) + (1 if 'S' in ss.__dict__ else 0)}"
+
+
+def _ser_coal_desc(c):
+    m = c.model
+    ps = {k: v for k, v in m.__dict__.items() if not k.startswith('_')}
+    ep = [(float(e.start_time), float(e.end_time), sorted((str(k), float(v)) for k, v in e.pop_sizes.items()),
+           sorted((str(k), float(v)) for k, v in e.migration_rates.items())) for e, _ in zip(c.demography.epochs, range(6))]
+    return dict(model=f'{type(m).__name__}{sorted(ps.items())}', lineage_config=sorted((k, int(v)) for k, v in c.lineage_config.lineage_dict.items()),
+                locus_config=(c.locus_config.n, c.locus_config.n_unlinked, float(c.locus_config.recombination_rate)), demography=ep)
+
+
+def _ser_coal_tokens(c):
+    """the `__dict__` of a Coalescent in the value syntax of the driver command `serial` (insertion order)"""
+    desc = _ser_coal_desc(c)
+    out = []
+    for k, v in c.__dict__.items():
+        if k in ('start_time', 'end_time', 'regularize', 'parallelize', 'pbar'):
+            t = _ser_num(v)
+        elif k in ('lineage_counting_state_space', 'block_counting_state_space'):
+            t = _ser_space(v)
+        elif k in desc:
+            t = 'o:' + _ser_hash(desc[k])
+        else:
+            t = 'o:' + type(v).__name__          # logger, cached result distributions
+        out.append(f'{k}={t}')
+    return out
+
+
+def _ser_inf_tokens(inf):
+    out = []
+    for k, v in inf.__dict__.items():
+        if k in ('_x0', 'x0', 'params_inferred'):
+            t = _ser_point(v)
+        elif k in ('coal', 'loss', 'resample'):
+            t = 'N' if v is None else f'f:{k}'
+        elif k == '_rng':
+            t = 'o:rng' + _ser_hash(v.bit_generator.state)
+        elif k in ('n_runs', 'n_bootstraps', 'do_bootstrap', 'parallelize', 'pbar', 'cache', 'seed', 'loss_inferred', 'observation'):
+            t = _ser_num(v)
+        elif k == 'loss_runs':
+            t = 'R:' + (','.join(C.rs(C.frac(x)) for x in np.asarray(v, dtype=float)) or '-')
+        elif k in ('bounds', 'opts'):
+            t = 'o:' + _ser_hash(sorted((a, tuple(b) if isinstance(b, (list, tuple)) else b) for a, b in v.items()))
+        elif k == 'result':
+            t = 'N' if v is None else 'o:' + _ser_hash((np.asarray(v.x, dtype=float).tolist(), float(v.fun)))
+        elif k == 'dist_inferred':
+            t = 'N' if v is None else 'o:' + _ser_hash(_ser_coal_desc(v))
+        elif k == 'bootstraps':
+            t = 'o:' + _ser_hash((list(v.columns), np.asarray(v.values, dtype=float).tolist()))
+        elif k in ('_lineage_counting_state_space', '_block_counting_state_space'):
+            t = 'o:' + type(v).__name__          # (their caches are saved as they are; not compared)
+        else:
+            t = 'o:' + type(v).__name__
+        out.append(f'{k}={t}')
+    return out
+
+
+def _ser_roundtrip(cls, obj, route):
+    if route == 'json':
+        return cls.from_json(obj.to_json())
+    import tempfile
+    with tempfile.TemporaryDirectory(prefix='pgser') as tmp:
+        path = os.path.join(tmp, 'obj.json')
+        obj.to_file(path)
+        return cls.from_file(path)
+
+
+def serial_fields(ctx, rng, sv='c', gv='i'):
+    """field by field: the `__dict__` of a REAL Coalescent / Inference after `from_json(to_json())` (or `to_file`/`from_file`)
+    against the model's prediction (driver `serial`); plus a statistic (Coalescent) and the start point `x0` (Inference)."""
+    pg = C.import_phasegen()
+    import copy
+    route = rng.choice(['json', 'file'])
+    if rng.random() < 0.6:
+        # ------------------------------------------------------------------ Coalescent
+        two = rng.random() < 0.4
+        loci = 2 if rng.random() < 0.25 else 1
+        model = pg.StandardCoalescent() if loci == 2 else rng.choice([pg.StandardCoalescent(), pg.BetaCoalescent(alpha=rng.choice([1.25, 1.5, 1.75])),
+                                                                      pg.DiracCoalescent(psi=rng.choice([0.25, 0.5]), c=rng.choice([1.0, 2.0]))])
+        n = {'a': rng.randint(1, 2), 'b': rng.randint(1, 2)} if two else rng.randint(2, 4)
+        t1 = rng.choice([0.5, 1.0, 2.0])
+        if two:
+            dem = pg.Demography(pop_sizes={'a': {0: 1.0, t1: rng.choice([0.5, 2.0])}, 'b': {0: rng.choice([1.0, 3.0])}},
+                                migration_rates={('a', 'b'): rng.choice([0.25, 1.0]), ('b', 'a'): 0.5})
+        else:
+            dem = pg.Demography(pop_sizes={'pop_0': {0: rng.choice([1.0, 2.0]), t1: rng.choice([0.5, 3.0])} if rng.random() < 0.7 else rng.choice([1.0, 2.0])})
+        kw = dict(start_time=rng.choice([0, 0.25, 1.5, 0.75]), end_time=rng.choice([None, None, 4.0, 12.5]), regularize=rng.random() < 0.5,
+                  parallelize=rng.random() < 0.5, pbar=rng.random() < 0.3)
+        c = pg.Coalescent(n=n, model=model, demography=dem, loci=pg.LocusConfig(n=2, recombination_rate=rng.choice([0.5, 1.0])) if loci == 2 else 1, **kw)
+        stat = (lambda o: float(o.tree_height.mean)) if loci == 2 or rng.random() < 0.5 else (lambda o: float(np.sum(o.sfs.mean.data)))
+        before_stat = stat(c) if rng.random() < 0.6 else None          # cached distributions and rate matrices in __dict__, or a bare object
+        toks = _ser_coal_tokens(c)
+        y = _ser_roundtrip(pg.Coalescent, c, route)
+        ctx.count('serial-coalescent'); ctx.count(f'serial-coalescent:{route}:{"cached" if before_stat is not None else "bare"}')
+        if kw['start_time'] != 0 or not kw['regularize']:
+            ctx.count('serial-coalescent-non-default-start_time-or-regularize')
+        if _ser_coal_tokens(c) != toks:
+            ctx.corr_break('serial-fields', why='original altered', before=toks, after=_ser_coal_tokens(c))
+        line = f"serial {sv} {gv} coal {' '.join(toks)}"
+        model_ans = C.driver().ask(line).split()
+        real = sorted(_ser_coal_tokens(y), key=lambda t: t.split('=')[0])
+        if model_ans != real:
+            diff = [(m, r) for m, r in zip(model_ans, real) if m != r] if len(model_ans) == len(real) else 'keys differ'
+            ctx.corr_break('serial-fields', kind='coalescent', route=route, request=line, model=model_ans, real=real, diff=diff, kwargs=kw)
+            return line
+        for k, v in kw.items():                     # the public attributes themselves (not only their tokens)
+            if getattr(y, k) != v and sv == 'c':
+                ctx.corr_break('serial-fields', kind='coalescent', why=f'attribute {k}', expected=v, loaded=getattr(y, k))
+        a, b = stat(c), stat(y)
+        if sv == 'c' and not (abs(a - b) <= 1e-9 * max(1.0, abs(a)) and (before_stat is None or abs(a - before_stat) <= 1e-12 * max(1.0, abs(a)))):
+            ctx.corr_break('serial-fields', kind='coalescent', why='statistic', original=a, loaded=b, before_saving=before_stat, kwargs=kw)
+        return line
+    # ---------------------------------------------------------------------- Inference (ONE save/load cycle)
+    given = rng.random() < 0.4
+    run = rng.random() < 0.5
+    two_par = rng.random() < 0.4
+    if two_par:
+        coal = lambda N, t: pg.Coalescent(n=2, demography=pg.Demography(pop_sizes={'pop_0': {0: 1.0, t: N}}), parallelize=False, pbar=False)
+        bounds = dict(N=(0.25, 8.0), t=(0.125, 2.0))
+        x0 = dict(N=rng.choice([0.5, 1.5, 3.0]), t=rng.choice([0.25, 1.0]))
+    else:
+        coal = lambda N: pg.Coalescent(n=2, demography=pg.Demography(pop_sizes={'pop_0': N}), parallelize=False, pbar=False)
+        bounds = dict(N=(0.25, 8.0))
+        x0 = dict(N=rng.choice([0.5, 1.5, 3.0]))
+    inf = pg.Inference(bounds=bounds, x0=x0 if given else None, coal=coal, loss=lambda c, o: float((c.tree_height.mean - o) ** 2),
+                       observation=rng.choice([1.0, 2.5]), resample=(lambda o, g: o * g.uniform(0.9, 1.1)) if rng.random() < 0.5 else None,
+                       n_runs=rng.randint(1, 2), parallelize=False, pbar=False, seed=rng.choice([None, rng.randrange(10 ** 6)]),
+                       cache=rng.random() < 0.7, opts=dict(maxiter=2))
+    looked = run or rng.random() < 0.6
+    if run:
+        with C.LogCapture():
+            inf.run()
+    elif looked:
+        _ = inf.x0
+    toks = _ser_inf_tokens(inf)
+    rng_at_save = copy.deepcopy(inf._rng)
+    y = _ser_roundtrip(pg.Inference, inf, route)
+    ctx.count('serial-inference'); ctx.count(f'serial-inference:{"run" if run else "not-run"}:{"x0-given" if given else "x0-drawn" if looked else "x0-not-looked-at"}:{route}')
+    if _ser_inf_tokens(inf) != toks:
+        ctx.corr_break('serial-fields', why='original altered', before=toks, after=_ser_inf_tokens(inf))
+    line = f"serial {sv} {gv} inf {' '.join(toks)}"
+    ans = C.driver().ask(line)
+    model_dict, model_x0 = ans.split(' | x0=')
+    real = sorted(_ser_inf_tokens(y), key=lambda t: t.split('=')[0])
+    if model_dict.split() != real:
+        m = model_dict.split()
+        diff = [(a, b) for a, b in zip(m, real) if a != b] if len(m) == len(real) else sorted(set(m) ^ set(real))
+        ctx.corr_break('serial-fields', kind='inference', route=route, request=line, model=m, real=real, diff=diff, run=run, x0_given=given, looked=looked)
+        return line
+    x0_loaded = dict(y.x0)
+    if model_x0.startswith('s:draw('):
+        expected = {k: rng_at_save.uniform(*b) for k, b in bounds.items()}          # `_sample()` on the generator as it was saved
+        ctx.count('serial-inference-model-predicts-a-fresh-draw')
+    else:
+        expected = {kv.split('~')[0]: float(Fraction(kv.split('~')[1])) for kv in model_x0[2:].split(',')}
+    if x0_loaded != expected:
+        ctx.corr_break('serial-fields', kind='inference', why='x0 of the loaded object', model=model_x0, expected=expected, loaded=x0_loaded,
+                       run=run, x0_given=given, looked=looked)
+    x0_orig = dict(inf.x0)
+    if gv == 'i' and x0_loaded != x0_orig:
+        ctx.corr_break('serial-fields', kind='inference', why='x0 before != x0 after', original=x0_orig, loaded=x0_loaded, run=run,
+                       x0_given=given, looked=looked)
+    return line
+
+
 # ------------------------------------------------------------------------------------------ pmap entry points
 def one_memo(ctx, i):
     rng = random.Random(f'{ctx.seed}-corr-memo-{i}')
@@ -913,3 +1276,19 @@ def one_config(ctx, i):
     for _ in range(12):
         info = config_glue(ctx, rng) or info
     ctx.case(dict(kind='config-glue', batch=i, last=info), f'config-{i}')
+
+
+def one_share(ctx, i):
+    rng = random.Random(f'{ctx.seed}-corr-share-{i}')
+    ops = None
+    for _ in range(8):
+        ops = share_history(ctx, rng, n_ops=rng.randint(4, 18), variant=os.environ.get('VERIF_SHARE_VARIANT', 'c'))
+    ctx.case(dict(kind='share-history', batch=i, last=ops), f'share-{i}')
+
+
+def one_serial(ctx, i):
+    rng = random.Random(f'{ctx.seed}-corr-serial-{i}')
+    line = None
+    for _ in range(8):
+        line = serial_fields(ctx, rng, sv=os.environ.get('VERIF_SERIAL_SET', 'c'), gv=os.environ.get('VERIF_SERIAL_GET', 'i'))
+    ctx.case(dict(kind='serial-fields', batch=i, last=line), f'serial-{i}')
